@@ -114,7 +114,7 @@ META = {
             'different priority (an obligation of the strictness rule was generated)',
     'required_labels': ['c13.strict-priority', 'c13.work-conserving-rate-exact'],
     'required_covers': ['nontrivial', 'burst-mixed-priorities'],
-    'bounds': {'quick': 'n=4 packets, 2-3 flows, priority tables {1,2},{2,1},{1,1},{1,2,3},{2.25,2.75}; sizes, gaps unbounded',
+    'bounds': {'quick': 'n=4 packets, 2-3 flows, priority tables {1,2},{2,1},{1,1},{1,2,3},{2.25,2.75}; sizes, gaps unbounded; fractional priorities; a 15-packet burst; late wake-ups; two-burst workloads of 8 packets',
                'thorough': 'n=5, all 2-flow patterns; six seed-chosen patterns of n=6 (sizes <= 3)'},
     'assumptions': ['a packet arriving at exactly the instant of a service start, in a later kernel step than the packet '
                     'being started, is not counted as waiting (the statement does not order them)'],
